@@ -223,6 +223,48 @@ def validate_traces(trace_module, cfg, files, timeout=900, xmx="3g", par=None, e
     return consumed, bad
 
 
+# --------------------------------------------------------------------------- sessions
+def run_sessions(prop, scenarios, tier, hang_ms=5000, procs=None, prefix="sess"):
+    """Runs end-to-end scenarios with `vh sess` (several processes) and returns
+    (trace files, merged driver summary)."""
+    import json as _json
+    tdir = outdir(prop, "traces", clean=True)
+    spath = os.path.join(tdir, "scenarios.jsonl")
+    with open(spath, "w") as f:
+        for i, s in enumerate(scenarios):
+            s = dict(s)
+            s["sid"] = i
+            f.write(_json.dumps(s) + "\n")
+    procs = procs or min(NCPU, max(1, len(scenarios) // 20))
+
+    def one(k):
+        """one worker: restarts a fresh process after every hung scenario"""
+        res = []
+        start, rounds = 0, 0
+        while True:
+            _, out, _ = run_vh(["sess", "--scenarios", spath, "--out", tdir,
+                                "--prefix", "%s%02d_%d" % (prefix, k, rounds), "--shards", 1,
+                                "--hang", hang_ms, "--part", k, "--parts", procs, "--start", start],
+                               timeout=3000)
+            d = _json.loads(out.strip().splitlines()[-1])
+            res.append(d)
+            rounds += 1
+            if d.get("resume", -1) < 0 or rounds > 12:
+                return res
+            start = d["resume"]
+
+    with ThreadPoolExecutor(max_workers=procs) as ex:
+        outs = list(ex.map(one, range(procs)))
+    summ = {"scenarios": 0, "events": 0, "hung": 0, "with_panics": 0, "io_not_released": 0}
+    files = []
+    for res in outs:
+        for d in res:
+            for k in summ:
+                summ[k] += d.get(k, 0)
+            files += d["files"]
+    return files, summ
+
+
 # --------------------------------------------------------------------------- traces
 def read_ndjson(path):
     with open(path) as f:
@@ -308,6 +350,9 @@ class Verdict:
         known = load_known()
         own_prefix = self.prop + ":"
         for b in bad:
+            if b["label"].startswith("ANY:"):
+                # hangs, panics, unexplained driver states count against whatever is being explored
+                b = dict(b, label=own_prefix + b["label"][4:])
             if not b["label"].startswith(own_prefix):
                 self.notes.append("%s (scen %s)" % (b["label"], b.get("scen")))
                 continue
